@@ -241,7 +241,7 @@ def _gate(ctx, cfg, prog, mod):
         if pair.pointee_head(b.locals[1])[0] != HULL:
             continue
         methods.append(q)
-    ctx.floor('exported ConvexHull queries taking the triangulation', 6, len(methods), cfg)
+    ctx.floor('exported ConvexHull queries taking the triangulation', 4, len(methods), cfg)
     # iterate: a method is "guarded" if all its tri-derived calls are behind the gate, or go to
     # generation-only helpers, or to other guarded methods
     guarded = set(gen_only)
